@@ -75,9 +75,37 @@ fn check_inner(sub: &str, gm: &G, toks: &[char], l: &mut Local) -> CaseRes {
             }
         }
     }
+    // the same memoized parser VALUE cloned into every place where the same (closed) memoized sub-grammar occurs:
+    // the second visit at one position then hits the memo table instead of a second instance's own entry
+    let shared = shared_memo_subtrees(gm);
+    if shared > 0 {
+        let mut bld = Bld::<&str, RichS>::new(gm, false);
+        bld.share_memo = true;
+        let ps = bld.build(gm);
+        let (os, cs) = (run_parse(&ps, s), run_check(&ps, s));
+        l.evals += 2;
+        l.bump("one_memoized_value_cloned_into_several_places");
+        if os.panic.is_some() || cs.panic.is_some() {
+            return fail(case, "C11/panic", format!("the grammar with a shared memoized value panicked ({:?} / {:?})", os.panic, cs.panic));
+        }
+        for (what, m, p) in [("parse", &os, &o0), ("check", &cs, &c0)] {
+            if m.has_output != p.has_output {
+                return fail(case, "C11/accept", format!("{} (one memoized value cloned into {} places): memoized has_output={} but plain has_output={} (memoized errors {:?}; plain errors {:?})", what, shared + 1, m.has_output, p.has_output, m.errs, p.errs));
+            }
+            if m.out != p.out {
+                return fail(case, "C11/output", format!("{} (shared memoized value): memoized output {:?} but plain output {:?}", what, m.out, p.out));
+            }
+            if m.errs.len() != p.errs.len() || m.errs.iter().zip(&p.errs).any(|(a, c)| a.span != c.span) {
+                return fail(case, "C11/error-span", format!("{} (shared memoized value): memoized errors {:?} but plain errors {:?}", what, m.errs, p.errs));
+            }
+        }
+        if om.has_output && toks.len() >= 2 {
+            l.bump("shared_memoized_value_on_an_accepted_input");
+        }
+    }
     let r = reference::eval(gm, toks, RefOpts::default());
     let st = &r.stats;
-    let nontrivial = st.memo_revisits > 0 || st.memo_two_at_one_pos > 0 || st.memo_failures > 0;
+    let nontrivial = st.memo_revisits > 0 || shared > 0 || st.memo_two_at_one_pos > 0 || st.memo_failures > 0;
     l.bump(if om.has_output { "with_output" } else { "rejected" });
     if st.memo_revisits > 0 {
         l.bump("memoized_node_entered_twice_at_one_position");
@@ -115,6 +143,28 @@ pub fn check_case(case: &Case, l: &mut Local) -> Result<(), Fail> {
         };
     }
     check_inner(&case.sub, &case.g, &case.toks(), l).map_err(|(_, f)| f)
+}
+
+/// number of closed memoized sub-grammars that occur more than once (counted per extra occurrence)
+fn shared_memo_subtrees(g: &G) -> usize {
+    let mut seen: Vec<&G> = vec![];
+    let mut dup = 0;
+    fn walk<'a>(g: &'a G, seen: &mut Vec<&'a G>, dup: &mut usize) {
+        if let G::Memo(a) = g {
+            if !a.any_node(&|n| matches!(n, G::RecRef(_))) {
+                if seen.iter().any(|x| **x == **a) {
+                    *dup += 1;
+                } else {
+                    seen.push(a);
+                }
+            }
+        }
+        for c in g.children() {
+            walk(c, seen, dup)
+        }
+    }
+    walk(g, &mut seen, &mut dup);
+    dup
 }
 
 pub fn templates() -> Vec<G> {
@@ -167,6 +217,24 @@ pub fn decode(tape: &[u32]) -> (G, Vec<char>) {
         }
         if !g.any_node(&|n| matches!(n, G::Memo(_))) {
             g = G::Memo(b(g));
+        }
+        // the same memoized sub-grammar in a second place (one parser value, cloned)
+        if gg.t.chance(2, 5) {
+            let n = g.size();
+            let memos: Vec<usize> = (0..n).filter(|i| matches!(node_at(&g, *i), Some(G::Memo(a)) if a.size() <= 8 && !a.any_node(&|x| matches!(x, G::RecRef(_))))).collect();
+            if !memos.is_empty() {
+                let src = node_at(&g, memos[gg.t.pick(memos.len())]).unwrap().clone();
+                let at = gg.t.pick(n);
+                let partner = match gg.t.pick(3) {
+                    // an alternative that retries the same memoized parser at the same position
+                    0 => G::Or(b(G::Then(b(src.clone()), b(G::Just("z".into())))), b(g.clone())),
+                    1 => G::Then(b(G::OrNot(b(G::Then(b(src.clone()), b(G::Just("z".into())))))), b(g.clone())),
+                    _ => replace_at(&g, at, &src),
+                };
+                if wf(&partner) && partner.size() <= 45 {
+                    g = partner;
+                }
+            }
         }
         (g, gg.alpha.clone())
     };
@@ -361,4 +429,13 @@ pub fn run(tier: Tier, seed: u64) -> i32 {
         }
         Ok(())
     })
+}
+
+/// one generated case from a raw choice tape (the coverage-guided tier feeds tapes decoded from bytes)
+pub fn fuzz_one(tape: &[u32], l: &mut Local) -> CaseRes {
+    let (g, input) = decode(tape);
+    if !wf(&g) {
+        return Ok(());
+    }
+    check_inner("rand", &g, &input, l)
 }
